@@ -14,7 +14,7 @@ MAP_ENTRY = "tuple[str,%s,str,str,%s]" % (CLS_OR_FN, MEMBER)
 SCHEMA = {
     # ---------------------------------------------------------------- parser nodes
     'Typename': {
-        'name': 'nestr|ref:Typename',    # instantiate_type stores a Typename into .name
+        'name': 'nestr',                 # (before the repair 38868e9 instantiate_type stored a Typename object here)
         'namespaces': 'list[str]',
         'instantiations': 'list[ref:Typename]',
     },
@@ -26,7 +26,7 @@ SCHEMA = {
     'TemplatedType': {
         'typename': 'ref:Typename',
         'template_params': 'list[%s]' % TYPE_ANY,
-        'is_const': 'str', 'is_shared_ptr': 'str', 'is_ptr': 'str', 'is_ref': 'str',
+        'is_const': 'str', 'is_shared_ptr': 'str', 'is_ptr': 'str', 'is_ref': 'str', 'is_basic': 'bool',
     },
     'Argument': {
         'ctype': TYPE_ANY, 'name': 'nestr', 'default': 'none|str', 'parent': 'any',
